@@ -99,6 +99,13 @@ func sendRequestToTarget(req *http.Request, httpsDefault bool) (*http.Response, 
 		slog.Error("Error sending request to target", "url", req.URL, "error", err)
 		return nil, fmt.Errorf("%w: %v", ErrSendRequestFailed, err)
 	}
+	if resp.StatusCode < 100 {
+		// Go's client accepts any three digits as a status code; one below 100 is not an HTTP
+		// status and cannot be relayed (http.ResponseWriter.WriteHeader panics on it).
+		resp.Body.Close()
+		slog.Error("Target answered with an invalid status code", "url", req.URL, "status", resp.Status)
+		return nil, fmt.Errorf("%w: invalid status code %d", ErrSendRequestFailed, resp.StatusCode)
+	}
 	slog.Debug("Sent request to target", "url", req.URL, "status", resp.Status)
 
 	// Remove any hop-by-hop headers in the response that should not be forwarded to the client.
